@@ -63,7 +63,7 @@ let check_tokens (cfg : econfig) (ops : eop list) (tr : tok list) : unit =
        history (coq/proofs/MonitorProofs.v monitors_hold); the hand-written clauses below only word the reason. *)
     let viol t = function
       | "C02" -> not (mon_C02 g t) | "C03" -> not (mon_C03 g t) | "C04" -> not (mon_C04 g t) | "C08" -> not (mon_C08 g t)
-      | "C09" -> not (mon_C09 g t) | "C15" -> not (mon_C15 g t) | "C16" -> not (mon_C16 g t) | _ -> false in
+      | "C09" -> not (mon_C09 g t) | "C12" -> not (mon_C12 g t) | "C15" -> not (mon_C15 g t) | "C16" -> not (mon_C16 g t) | _ -> false in
     let on_tok t p = on p && viol t p in
     List.iter (fun t ->
       (match t with
@@ -153,7 +153,7 @@ let check_tokens (cfg : econfig) (ops : eop list) (tr : tok list) : unit =
           | TStore (_, r, _) -> Printf.sprintf "[write of run %d: state %d status %d version %d]" (ni r.r_run) (zi (rs_code r.r_state)) (zi r.r_status) (zi r.r_ver)
           | TUser (u, v, _, _, _) -> Printf.sprintf "[invocation of function %d on run %d]" (zi (ufun_code u)) (ni v.r_run)
           | _ -> "[token]") p)
-        ["C02"; "C03"; "C04"; "C08"; "C09"; "C15"; "C16"]) seg;
+        ["C02"; "C03"; "C04"; "C08"; "C09"; "C12"; "C15"; "C16"]) seg;
     (* ---------------- per-operation clauses ---------------- *)
     (match unit_of_op with
      | Some (inst, EOutbox) ->
